@@ -106,7 +106,7 @@ def requirements(tier):
         "path-evaluated": 12000 if q else 400000,
         "roundtrip-evaluated": 12000 if q else 400000,
         "onehop-evaluated": 1000,
-        "bystander-checked": 1500, "derived-matrix-evaluated": 1500,
+        "bystander-checked": 1500, "derived-matrix-evaluated": 1500, "matrix-given-as:int-ndarray": 3, "matrix-given-as:int-lists": 3,
         "driver:set": 2000,
         "driver:copy": 2000,
         "driver:drag": 1000,
@@ -182,10 +182,20 @@ def gen_case(rng, idx):
     usec = rng.randrange(0, 86400 * 10 ** 6)
     date = Date(day, 0.0) + timedelta(microseconds=usec)
     C, cd = cr.random_spd(rng)
+    given = "float-ndarray"
+    if idx % 5 == 3:
+        # "every symmetric PSD 6x6 matrix", whatever holds its numbers: integer-valued matrices (a diagonal of variances typed
+        # by hand, A A^T of an integer A) as int64 arrays or nested lists, float matrices as nested lists
+        given = rng.choice(["int-ndarray", "int-lists", "float-lists", "int-diagonal"])
+        if given != "float-lists":
+            A_ = np.array([[rng.randint(-3, 3) for _ in range(6)] for _ in range(6)])
+            Ci = A_ @ A_.T + np.diag([rng.randint(1, 9) for _ in range(6)]) if given != "int-diagonal" else np.diag([rng.randint(1, 400) for _ in range(6)])
+            C = Ci.astype(float)
+            cd = dict(cd, cond=float(np.linalg.cond(C)))
     form = rng.choice(STATE_FORMS if oc != "HYP" else ["cartesian", "spherical", "keplerian"])
     descr = dict(orbit_class=oc, a=a, e=e, i=inc, raan=raan, argp=argp, nu=nu, start=start, mjd_day=day, usec=usec,
-                 state_form=form, **cd)
-    return dict(r=r, v=v, start=start, date=date, C=C, form=form, descr=descr, oc=oc)
+                 state_form=form, matrix_given_as=given, **cd)
+    return dict(r=r, v=v, start=start, date=date, C=C, form=form, descr=descr, oc=oc, given=given)
 
 
 def statemap(A, T, date):
@@ -223,6 +233,17 @@ class Case:
             C=[[float(x) for x in row] for row in self.C],
         )
 
+    def given(self):
+        """The matrix as the caller holds it (see gen_case): a new container at every call."""
+        g = self.c.get("given", "float-ndarray")
+        if g in ("int-ndarray", "int-diagonal"):
+            return np.array(np.rint(self.C), dtype=np.int64)
+        if g == "int-lists":
+            return [[int(round(x)) for x in row] for row in self.C]
+        if g == "float-lists":
+            return [[float(x) for x in row] for row in self.C]
+        return self.C.copy()
+
     def new_sv(self):
         from beyond.orbits import StateVector
 
@@ -241,7 +262,7 @@ class History:
 
         self.case = case
         self.sv = case.new_sv()
-        self.cov = Cov(self.sv, case.C.copy(), case.frameA)
+        self.cov = Cov(self.sv, case.given(), case.frameA)
         self.attached = attached
         if attached:
             self.sv.cov = self.cov
@@ -519,6 +540,7 @@ def run_case(ctx, job, idx, rng, st):
     ctx.count("start:" + c["start"])
     ctx.count("orbit:" + c["oc"])
     ctx.count("form:" + c["form"])
+    ctx.count("matrix-given-as:" + c.get("given", "float-ndarray"))
     cond = c["descr"]["cond"]
     ctx.count("cond:" + ("<1e4" if cond < 1e4 else "1e4-1e8" if cond < 1e8 else "1e8-1e12"))
     st["cache"].clear()
@@ -576,7 +598,7 @@ def run_str(ctx, case, rng):
     # (a) the object can be built, reports its frame, and copies
     sv = case.new_sv()
     try:
-        cov = Cov(sv, case.C.copy(), A)
+        cov = Cov(sv, case.given(), A)
         lab = fname(cov.frame)
         ctx.expect(lab == A, "C14/str-frame-label", dict(w, label=lab), f"Cov(..., frame={A!r}).frame reports {lab!r}")
         c2 = cov.copy()
@@ -588,7 +610,7 @@ def run_str(ctx, case, rng):
     # (b) conversion through the setter / copy(frame=) must give M C M^T like for a Frame argument
     for how in ("set", "copy"):
         ctx.count("strframe:convert")
-        cov = Cov(case.new_sv(), case.C.copy(), A)
+        cov = Cov(case.new_sv(), case.given(), A)
         try:
             if how == "set":
                 cov.frame = T
@@ -605,7 +627,7 @@ def run_str(ctx, case, rng):
                   msg=f"str-constructed covariance {A} -> {T}: differs from M C M^T by {d:.3g}")
 
     # (c) conversion to the frame it is already in is a no-op
-    cov = Cov(case.new_sv(), case.C.copy(), A)
+    cov = Cov(case.new_sv(), case.given(), A)
     try:
         cov.frame = A
         ctx.expect(np.array_equal(np.asarray(cov), case.C), "C14/str-frame-same-frame-changes-values", w, "cov.frame = <same frame> changed the values")
@@ -618,7 +640,7 @@ def run_str(ctx, case, rng):
     sv = case.new_sv()
     ctx.count("strframe:drag")
     try:
-        sv.cov = Cov(sv, case.C.copy(), A)
+        sv.cov = Cov(sv, case.given(), A)
         sv.frame = Tn
     except Exception as exc:
         ctx.violation("C14/str-frame-drag-raises", dict(w, target=Tn, exc=repr(exc)), f"orb.frame = {Tn} with a str-constructed covariance raised {exc!r}")
